@@ -542,6 +542,16 @@ def execute(world, op, dry=False):
 
         def fn():
             s.link = path
+    elif name == "set_include":
+        _, sec, url = op
+        s = g(sec)
+        tags = ["to-none" if not url else ("unavailable-resource" if "nonexistent" in url else "available-resource")]
+        tags.append("attached" if s.__dict__.get("_parent") is not None else "detached")
+        if s.__dict__.get("_link") is not None:
+            tags.append("has-link")
+
+        def fn():
+            s.include = url
     elif name == "finalize":
         d = g(op[1])
         tags = []
